@@ -46,8 +46,15 @@ def rule_once(ctx, rep):
             lab = cast_label(si["subject"][1])
             if lab:
                 arms = si["edges"].get(succ)
-                if arms:
+                if arms and si.get("adt") == "core::result::Result":
+                    # the discriminant of one cast result cannot change along a path: later re-tests (drop elaboration,
+                    # nested patterns) that contradict the first outcome are infeasible edges
+                    prev = [a for (l, a) in dec if l == lab]
+                    if prev and prev[0] != arms[0]:
+                        return None
                     dec = dec | frozenset([(lab, arms[0])])
+                elif arms:
+                    dec = dec | frozenset([(lab + "/" + str(si.get("adt", "")).split("::")[-1], arms[0])])
             elif (si["subject"][1].callee or "").endswith(("Iterator>::last", "Iterator::last", "Vec::pop", "DoubleEndedIterator>::next_back", "DoubleEndedIterator::next_back")):
                 arms = si["edges"].get(succ)
                 if arms:
